@@ -92,7 +92,7 @@ func genCase(prop string) func(t *rapid.T) Case {
 			op := Op{K: rapid.SampledFrom(kinds).Draw(t, "k")}
 			switch op.K {
 			case "setctx":
-				op.Ctx = rapid.SampledFrom([]string{"new", "new", "same", "nil"}).Draw(t, "ctx")
+				op.Ctx = rapid.SampledFrom([]string{"new", "new", "same", "nil", "sibling"}).Draw(t, "ctx")
 				op.Restart = rapid.IntRange(0, 2).Draw(t, "restart") == 0
 			case "setroutine", "setstatefn":
 				op.Nil = rapid.IntRange(0, 5).Draw(t, "nil") == 0
@@ -148,6 +148,7 @@ type ownCtx struct {
 }
 
 func newOwnCtx(values context.Context) (context.Context, context.CancelFunc) {
+	// (values: the context Value and Deadline are forwarded to)
 	c := &ownCtx{Context: values, done: make(chan struct{})}
 	return c, func() {
 		c.mu.Lock()
@@ -318,6 +319,8 @@ func body(c *sched.Ctl, cs Case, v *ev.Verdict) {
 	var cancels []context.CancelFunc
 	ctxs = append(ctxs, nil)
 	cancels = append(cancels, nil)
+	roots := []context.Context{nil} // per context id: the cancellable context it wraps
+	siblingCtx := false
 	var fns []*fnSpec
 	nextState := 0
 	// what each mutator label does to the model when its critical section is granted
@@ -671,13 +674,27 @@ func body(c *sched.Ctl, cs Case, v *ev.Verdict) {
 			cid := m.ctxID
 			switch op.Ctx {
 			case "new":
-				ctx, cancel := context.WithCancel(context.WithValue(context.Background(), ctxKey{}, len(ctxs)))
+				root, cancel := context.WithCancel(context.Background())
 				if cs.OwnCtx {
-					ctx, cancel = newOwnCtx(context.WithValue(context.Background(), ctxKey{}, len(ctxs)))
+					root, cancel = newOwnCtx(context.Background())
 				}
-				ctxs = append(ctxs, ctx)
+				ctxs = append(ctxs, context.WithValue(root, ctxKey{}, len(ctxs)))
 				cancels = append(cancels, cancel)
+				roots = append(roots, root)
 				cid = len(ctxs) - 1
+			case "sibling":
+				// a different context with the same cancellation scope (another WithValue wrapper
+				// of the current context's root): it is a new context all the same
+				if cid != 0 {
+					ctxs = append(ctxs, context.WithValue(roots[cid], ctxKey{}, len(ctxs)))
+					cancels = append(cancels, cancels[cid])
+					roots = append(roots, roots[cid])
+					if m.dead[cid] {
+						m.CancelRoot(len(ctxs) - 1)
+					}
+					cid = len(ctxs) - 1
+					siblingCtx = true
+				}
 			case "nil":
 				cid = 0
 			}
@@ -1003,7 +1020,11 @@ func body(c *sched.Ctl, cs Case, v *ev.Verdict) {
 				hm.Unlock()
 				return false
 			}
-			m.CancelRoot(cid)
+			for id := range ctxs {
+				if id != 0 && roots[id] == roots[cid] {
+					m.CancelRoot(id) // every context wrapping this root
+				}
+			}
 			rootCancelled = true
 			hm.Unlock()
 			cancels[cid]()
@@ -1128,6 +1149,9 @@ func body(c *sched.Ctl, cs Case, v *ev.Verdict) {
 	}
 	if cs.OwnCtx {
 		v.Class("caller-defined-context-type")
+	}
+	if siblingCtx {
+		v.Class("context-replaced-by-a-sibling-with-the-same-done-channel")
 	}
 }
 
